@@ -27,8 +27,9 @@ const (
 type ropePart struct {
 	kind  ropeKind
 	lit   string
-	num   *Term   // signed 64-bit
+	num   *Term   // signed 64-bit (rkNum) or length (rkOpaque)
 	bytes []*Term // 8-bit each
+	id    *Term   // rkOpaque: the term whose rendering this is
 }
 
 type rope struct {
@@ -460,6 +461,22 @@ func (r *rope) slice(fr *frame, lo, hi value) value {
 }
 
 func (r *rope) toBytes(fr *frame) []value {
+	if r.hasOnlyFixed() {
+		var out []value
+		for _, p := range r.parts {
+			switch p.kind {
+			case rkLit:
+				for i := 0; i < len(p.lit); i++ {
+					out = append(out, p.lit[i])
+				}
+			case rkBytes:
+				for _, t := range p.bytes {
+					out = append(out, wrapInt(t, types.Uint8))
+				}
+			}
+		}
+		return out
+	}
 	px := fr.i.px
 	if !r.hasOnlyFixed() {
 		s := r.concretizeString(fr)
@@ -547,6 +564,23 @@ func ropeEq(fr *frame, x, y value) value {
 		}
 	}
 	px2, py2 := partsOf(x), partsOf(y)
+	if hasOpaque(px2) || hasOpaque(py2) {
+		if len(px2) == len(py2) {
+			same := true
+			for i := range px2 {
+				p, q := px2[i], py2[i]
+				if p.kind != q.kind || (p.kind == rkLit && p.lit != q.lit) || (p.kind == rkOpaque && p.id != q.id) || (p.kind == rkNum && p.num != q.num) || p.kind == rkBytes {
+					same = false
+					break
+				}
+			}
+			if same {
+				return true
+			}
+		}
+		// unknown text: both outcomes are explored (over-approximation)
+		return symBool{px.newBoolSym("env", "opaque_eq")}
+	}
 	if len(px2) == len(py2) {
 		same := true
 		acc := tTrue
@@ -618,8 +652,10 @@ func ropeEq(fr *frame, x, y value) value {
 		}
 		return wrapBool(acc)
 	}
-	px.abort("unsupported", "rope equality with incomparable shapes: %v vs %v", x, y)
-	return nil
+	// Shapes the tokenizer cannot align (a sign directly before a number
+	// part, adjacent numbers): the outcome is left open, both are explored.
+	px.approx++
+	return symBool{px.newBoolSym("env", "rope_eq")}
 }
 
 func digitFreeDiff(p, q string) bool {
@@ -813,4 +849,47 @@ func (it *ropeIter) next() tuple {
 
 func bytesToRope(fr *frame, bs []value) value {
 	return conv(fr, types.Typ[types.String], types.NewSlice(types.Typ[types.Byte]), bs)
+}
+
+func hasOpaque(ps []ropePart) bool {
+	for _, p := range ps {
+		if p.kind == rkOpaque {
+			return true
+		}
+	}
+	return false
+}
+
+// ropeBytes is a []byte whose content is a rope with parts of symbolic
+// length (decimal renderings).  It supports what splice-style code does with
+// byte buffers: slicing at concrete offsets inside the fixed-width prefix,
+// conversion back to string, writing into a buffer.  Anything else
+// materialises the bytes (which may end the path as unsupported).
+type ropeBytes struct{ r value }
+
+func mkRopeBytes(v value) value {
+	switch s := v.(type) {
+	case *rope:
+		if s.hasOnlyFixed() {
+			return s.toBytes(nil)
+		}
+		return ropeBytes{s}
+	case string:
+		out := make([]value, len(s))
+		for i := 0; i < len(s); i++ {
+			out[i] = s[i]
+		}
+		return out
+	}
+	panic("mkRopeBytes")
+}
+
+func (rb ropeBytes) materialize(fr *frame) []value {
+	switch s := rb.r.(type) {
+	case *rope:
+		return s.toBytes(fr)
+	case string:
+		return mkRopeBytes(s).([]value)
+	}
+	return nil
 }
